@@ -768,6 +768,18 @@ func Worker(t *testing.T, c *Check) {
 		}
 		progress.Add(1)
 		res := Exec(t, c, seed, tier, nil)
+		if os.Getenv("VERIF_DUMP_LOG") != "" {
+			for _, l := range res.Log {
+				fmt.Println("LOG", l)
+			}
+		}
+		if os.Getenv("VERIF_DIGEST") != "" {
+			v := "-"
+			if res.Viol != nil {
+				v = res.Viol.Sig
+			}
+			fmt.Printf("DIGEST seed=%d sig=%016x draws=%d decisions=%d switches=%d simns=%d viol=%s\n", seed, res.Sig, res.Draws, res.Decisions, res.Switches, res.SimDur.Nanoseconds(), v)
+		}
 		rep.Runs++
 		rep.Decisions += res.Decisions
 		rep.Switches += int64(res.Switches)
